@@ -1692,12 +1692,10 @@ Proof.
   - apply N.leb_le in Hs. apply cover_depth_small; [now apply bits_bottom_count_small|lia].
   - apply andb_true_iff in Hs. destruct Hs as [Hs _]. apply N.leb_le in Hs.
     destruct (is_basic_elem t); apply cover_depth_small; try lia.
-    + now apply bottom_count_small.
-    + etransitivity; [exact Hs|]. apply N.pow_le_mono_r; lia.
+    now apply bottom_count_small.
   - apply andb_true_iff in Hs. destruct Hs as [Hs _]. apply N.leb_le in Hs.
     destruct (is_basic_elem t); apply cover_depth_small; try lia.
-    + now apply bottom_count_small.
-    + etransitivity; [exact Hs|]. apply N.pow_le_mono_r; lia.
+    now apply bottom_count_small.
 Qed.
 
 Lemma small_view_depth t : small_params t = true ->
@@ -1747,7 +1745,7 @@ Theorem repr_ro_complex_vector e k n vs extra :
     Forall2 (fun step x => exists m, step = INode e m /\ repr zh e m x) steps vs.
 Proof.
   intros Hb Hwf Hsm Hr Ht.
-  pose proof (small_contents_depth _ Hsm) as Hd.
+  pose proof (small_contents_depth _ Hsm) as Hd. cbv beta iota in Hd.
   cbn [wf_ty] in Hwf. apply andb_true_iff in Hwf. destruct Hwf as [_ Hwfe].
   cbn [has_type] in Ht. apply andb_true_iff in Ht. destruct Ht as [Hlen _]. apply N.eqb_eq in Hlen.
   cbn [repr] in Hr. rewrite Hb in Hr.
@@ -1772,7 +1770,7 @@ Theorem repr_ro_complex_list e k n vs extra :
     Forall2 (fun step x => exists m, step = INode e m /\ repr zh e m x) steps vs.
 Proof.
   intros Hb Hwf Hsm Hr Ht.
-  pose proof (small_contents_depth _ Hsm) as Hd.
+  pose proof (small_contents_depth _ Hsm) as Hd. cbv beta iota in Hd.
   cbn [wf_ty] in Hwf. rename Hwf into Hwfe.
   cbn [has_type] in Ht. apply andb_true_iff in Ht. destruct Ht as [Hlen _]. apply N.leb_le in Hlen.
   cbn [repr] in Hr. destruct Hr as (c & -> & Hr). rewrite Hb in Hr.
@@ -1785,9 +1783,8 @@ Proof.
     assert (N.of_nat (length vs) < 2 ^ 64).
     { assert (2 ^ 56 < 2 ^ 64) by (apply N.pow_lt_mono_r; lia). lia. }
     assert (E : le_val (firstn 8 (pad32 (le_bytes 8 (N.of_nat (length vs))))) = N.of_nat (length vs)).
-    { unfold pad32, pad_to. rewrite firstn_firstn. cbn [Nat.min].
-      rewrite firstn_app, le_bytes_length, Nat.sub_diag. cbn [firstn]. rewrite app_nil_r.
-      rewrite firstn_all2 by (rewrite le_bytes_length; lia).
+    { change (firstn 8 (pad32 (le_bytes 8 (N.of_nat (length vs)))))
+        with (le_bytes 8 (N.of_nat (length vs))).
       rewrite le_val_le_bytes. rewrite pow256. apply N.mod_small. exact H. }
     rewrite E. rewrite (proj2 (N.ltb_ge _ _) Hlen). reflexivity. }
   rewrite Hll. cbn [node_left]. cbv zeta.
@@ -1802,3 +1799,560 @@ Proof.
 Qed.
 
 End WithZeroTable2.
+
+Lemma list_length_len_leaf k c L : L <= k -> L < 2 ^ 64 ->
+  list_length k (Pair c (len_leaf L)) = OK L.
+Proof.
+  intros Hk H64. unfold list_length, len_leaf.
+  change (firstn 8 (pad32 (le_bytes 8 L))) with (le_bytes 8 L).
+  rewrite le_val_le_bytes, pow256. change (8 * N.of_nat 8) with 64.
+  rewrite N.mod_small by exact H64. now rewrite (proj2 (N.ltb_ge _ _) Hk).
+Qed.
+
+Lemma combine_nth_error {A B} : forall (l : list A) (r : list B) i a b,
+  nth_error (combine l r) i = Some (a, b) -> nth_error l i = Some a /\ nth_error r i = Some b.
+Proof.
+  induction l as [|x l IH]; intros r i a b H; [destruct i; discriminate|].
+  destruct r as [|y r]; [destruct i; discriminate|].
+  destruct i; cbn in *; [injection H as -> ->; split; reflexivity|now apply IH].
+Qed.
+
+Section WithZeroTable3.
+Variable zh : nat -> chunk.
+
+Definition cont_preds : list ty -> list val -> list (node -> Prop) :=
+  fix go (fs : list ty) (vs : list val) : list (node -> Prop) :=
+    match fs, vs with
+    | f :: fs', x :: vs' => (fun m => repr zh f m x) :: go fs' vs'
+    | _, _ => []
+    end.
+
+Lemma repr_container fs n vs :
+  repr zh (TContainer fs) n (VCont vs) = series zh (cdepth (TContainer fs)) (cont_preds fs vs) n.
+Proof. reflexivity. Qed.
+
+Lemma cont_preds_nth : forall fs vs i f x,
+  nth_error fs i = Some f -> nth_error vs i = Some x ->
+  nth_error (cont_preds fs vs) i = Some (fun m => repr zh f m x).
+Proof.
+  induction fs as [|f0 fs IH]; intros vs i f x Hf Hx; [destruct i; discriminate|].
+  destruct vs as [|x0 vs]; [destruct i; discriminate|].
+  destruct i; cbn in *; [injection Hf as ->; injection Hx as ->; reflexivity|now apply IH].
+Qed.
+
+Lemma has_type_cont_length : forall fs vs,
+  has_type (VCont vs) (TContainer fs) = true -> length vs = length fs.
+Proof.
+  induction fs as [|f fs IH]; intros [|x vs] H; cbn in H; try discriminate; [reflexivity|].
+  apply andb_true_iff in H. destruct H as [_ H]. cbn [length]. f_equal. apply IH. exact H.
+Qed.
+
+Theorem repr_ro_container fs n vs extra :
+  wf_ty (TContainer fs) = true -> view_depth (TContainer fs) < 64 ->
+  repr zh (TContainer fs) n (VCont vs) -> has_type (VCont vs) (TContainer fs) = true ->
+  exists steps, ro_iter (TContainer fs) n extra = steps ++ repeat IEnd extra /\
+    Forall2 (fun step fx => exists m, step = INode (fst fx) m /\ repr zh (fst fx) m (snd fx))
+            steps (combine fs vs).
+Proof.
+  intros Hwf Hvd Hr Ht.
+  pose proof (has_type_cont_length fs vs Ht) as Hlen.
+  cbn [wf_ty] in Hwf. apply andb_true_iff in Hwf. destruct Hwf as [_ Hwfs].
+  rewrite repr_container in Hr.
+  cbn [ro_iter].
+  set (t := TContainer fs) in *.
+  assert (Hvd' : view_depth t = contents_depth t) by (unfold view_depth; cbn [is_list_ty t]; lia).
+  rewrite Hvd' in *.
+  assert (Hcl : length (combine fs vs) = length fs) by (rewrite combine_length; lia).
+  assert (Hpl : length (cont_preds fs vs) = length fs).
+  { clear -Hlen. revert vs Hlen. induction fs as [|f fs IH]; intros [|x vs] H; cbn in *;
+      try lia. f_equal. apply IH. lia. }
+  pose proof (series_length zh _ _ _ Hr) as Hsl. unfold lenN in Hsl.
+  rewrite Hpl, cdepth_N in Hsl.
+  rewrite (proj2 (node_iter_ok_spec (contents_depth t) _ Hvd) Hsl).
+  pose proof (pow2_le_64 (contents_depth t) Hvd).
+  pose proof (node_iter_drain_init (fun i => nth_error fs i) n (N.of_nat (length fs))
+                (contents_depth t) extra ltac:(lia) Hsl ltac:(lia)) as E.
+  rewrite Nat2N.id in E. rewrite E. clear E.
+  apply steps_of_forall2. rewrite <- Hcl.
+  apply Forall2_seq_nth. intros i [f x] Hfx. cbn [Nat.add fst snd].
+  destruct (combine_nth_error _ _ _ _ _ Hfx) as [Hf Hx].
+  destruct (series_bottom zh _ _ n i _ Hr (cont_preds_nth fs vs i f x Hf Hx)) as (m & Hm & Hrm).
+  rewrite cdepth_N in Hm.
+  assert (Hwff : wf_ty f = true).
+  { rewrite forallb_forall in Hwfs. apply Hwfs. eapply nth_error_In; eassumption. }
+  exists (INode f m). split; [|exists m; split; [reflexivity|exact Hrm]].
+  unfold node_elem. rewrite Hm. cbn [bind]. rewrite Hf.
+  now rewrite (repr_vfb zh f m x Hwff Hrm).
+Qed.
+
+End WithZeroTable3.
+
+(* ---- byte strings and bit strings in chunks ---- *)
+
+Lemma skipn_add' {A} : forall a b (l : list A), skipn (a + b) l = skipn b (skipn a l).
+Proof.
+  induction a as [|a IH]; intros b l; [reflexivity|].
+  destruct l as [|x l]; [now rewrite !skipn_nil|]. cbn. apply IH.
+Qed.
+
+Lemma chunkify_fuel_spec' : forall fuel bs, (length bs < fuel)%nat ->
+  chunkify_fuel fuel bs =
+  map (fun i => pad32 (firstn 32 (skipn (32 * i) bs))) (seq 0 ((length bs + 31) / 32)).
+Proof.
+  induction fuel as [|f IH]; intros bs Hf; [lia|].
+  destruct bs as [|b bs]; [reflexivity|].
+  cbn [chunkify_fuel]. set (l := b :: bs) in *.
+  assert (Hl : (0 < length l)%nat) by (subst l; cbn [length]; lia).
+  replace ((length l + 31) / 32)%nat with (S ((length (skipn 32 l) + 31) / 32)).
+  2:{ rewrite skipn_length; lia. }
+  cbn [seq map]. rewrite Nat.mul_0_r. change (skipn 0 l) with l. f_equal.
+  rewrite IH by (rewrite skipn_length; lia).
+  rewrite <- seq_shift, map_map. apply map_ext. intros i.
+  replace (32 * S i)%nat with (32 + 32 * i)%nat by lia. rewrite skipn_add'. reflexivity.
+Qed.
+
+Lemma chunkify_spec bs :
+  chunkify bs =
+  map (fun i => pad32 (firstn 32 (skipn (32 * i) bs))) (seq 0 ((length bs + 31) / 32)).
+Proof. unfold chunkify. apply chunkify_fuel_spec'. lia. Qed.
+
+Lemma btb_fuel_spec : forall fuel bs, (length bs < fuel)%nat ->
+  bits_to_bytes_fuel fuel bs =
+  map (fun i => byte_of_N (bits_val (firstn 8 (skipn (8 * i) bs)))) (seq 0 ((length bs + 7) / 8)).
+Proof.
+  induction fuel as [|f IH]; intros bs Hf; [lia|].
+  destruct bs as [|b bs]; [reflexivity|].
+  cbn [bits_to_bytes_fuel]. set (l := b :: bs) in *.
+  assert (Hl : (0 < length l)%nat) by (subst l; cbn [length]; lia).
+  replace ((length l + 7) / 8)%nat with (S ((length (skipn 8 l) + 7) / 8))
+    by (rewrite skipn_length; lia).
+  cbn [seq map]. rewrite Nat.mul_0_r. change (skipn 0 l) with l. f_equal.
+  rewrite IH by (rewrite skipn_length; lia).
+  rewrite <- seq_shift, map_map. apply map_ext. intros i.
+  replace (8 * S i)%nat with (8 + 8 * i)%nat by lia. rewrite skipn_add'. reflexivity.
+Qed.
+
+Lemma btb_spec bs :
+  bits_to_bytes bs =
+  map (fun i => byte_of_N (bits_val (firstn 8 (skipn (8 * i) bs)))) (seq 0 ((length bs + 7) / 8)).
+Proof. unfold bits_to_bytes. apply btb_fuel_spec. lia. Qed.
+
+Lemma nth_map_seq {A} (g : nat -> A) d len i : (i < len)%nat -> nth i (map g (seq 0 len)) d = g i.
+Proof.
+  intros Hi. rewrite (nth_indep _ d (g 0%nat)) by (now rewrite map_length, seq_length).
+  rewrite map_nth, seq_nth by lia. reflexivity.
+Qed.
+
+Lemma nth_skipn' {A} (d : A) : forall s l r, nth r (skipn s l) d = nth (s + r) l d.
+Proof.
+  induction s as [|s IH]; intros l r; [reflexivity|].
+  destruct l as [|x l]; [now destruct r|]. cbn. apply IH.
+Qed.
+
+Lemma nth_firstn' {A} (d : A) : forall m l r, (r < m)%nat -> nth r (firstn m l) d = nth r l d.
+Proof.
+  induction m as [|m IH]; intros l r Hr; [lia|].
+  destruct l as [|x l]; [reflexivity|]. destruct r; cbn; [reflexivity|]. apply IH. lia.
+Qed.
+
+Lemma nth_pad32 l r : (r < 32)%nat -> nth r (pad32 l) b0 = nth r l b0.
+Proof.
+  intros Hr. unfold pad32, pad_to. rewrite nth_firstn' by exact Hr.
+  destruct (Nat.lt_ge_cases r (length l)) as [H|H].
+  - now rewrite app_nth1.
+  - rewrite app_nth2 by exact H. rewrite (nth_overflow l) by exact H.
+    unfold zero_bytes. destruct (Nat.lt_ge_cases (r - length l) 32) as [H'|H'].
+    + now rewrite nth_repeat.
+    + apply nth_overflow. now rewrite repeat_length.
+Qed.
+
+(* byte j of chunk q is byte 32q + j of the string *)
+Lemma chunkify_byte bs q j : (j < 32)%nat ->
+  nth j (nth q (chunkify bs) zero_chunk) b0 = nth (32 * q + j) bs b0.
+Proof.
+  intros Hj. rewrite chunkify_spec.
+  destruct (Nat.lt_ge_cases q ((length bs + 31) / 32)) as [Hq|Hq].
+  - rewrite nth_map_seq by exact Hq.
+    rewrite nth_pad32, nth_firstn', nth_skipn' by exact Hj. reflexivity.
+  - rewrite (nth_overflow (map _ _)) by (now rewrite map_length, seq_length).
+    rewrite (nth_overflow bs) by lia.
+    unfold zero_chunk, zero_bytes. now rewrite nth_repeat.
+Qed.
+
+Lemma testbit_bits_val : forall l b, N.testbit (bits_val l) (N.of_nat b) = nth b l false.
+Proof.
+  induction l as [|x l IH]; intros b; [cbn; now destruct b|].
+  cbn [bits_val]. destruct b as [|b].
+  - cbn [nth N.of_nat]. destruct x.
+    + replace (1 + 2 * bits_val l) with (2 * bits_val l + 1) by lia. apply N.testbit_odd_0.
+    + rewrite N.add_0_l. apply N.testbit_even_0.
+  - rewrite Nat2N.inj_succ. cbn [nth]. destruct x.
+    + replace (1 + 2 * bits_val l) with (2 * bits_val l + 1) by lia.
+      rewrite N.testbit_odd_succ by lia. apply IH.
+    + rewrite N.add_0_l. rewrite N.testbit_even_succ by lia. apply IH.
+Qed.
+
+Lemma bits_val_bound : forall l, bits_val l < 2 ^ N.of_nat (length l).
+Proof.
+  induction l as [|x l IH]; [cbn; lia|].
+  cbn [bits_val length]. rewrite Nat2N.inj_succ, N.pow_succ_r'. destruct x; lia.
+Qed.
+
+(* bit b of byte j of the packed bits is bit 8j + b *)
+Lemma btb_bit bs j b : (b < 8)%nat ->
+  byte_testbit (nth j (bits_to_bytes bs) b0) (N.of_nat b) = nth (8 * j + b) bs false.
+Proof.
+  intros Hb. rewrite btb_spec. unfold byte_testbit.
+  destruct (Nat.lt_ge_cases j ((length bs + 7) / 8)) as [Hj|Hj].
+  - rewrite nth_map_seq by exact Hj. rewrite N_of_byte_of_N.
+    set (l := firstn 8 (skipn (8 * j) bs)).
+    assert (Hl : bits_val l < 256).
+    { pose proof (bits_val_bound l) as HB.
+      assert (length l <= 8)%nat by (unfold l; rewrite firstn_length; lia).
+      assert (2 ^ N.of_nat (length l) <= 2 ^ 8) by (apply N.pow_le_mono_r; lia).
+      change (2 ^ 8) with 256 in *. lia. }
+    rewrite N.mod_small by exact Hl. rewrite testbit_bits_val. unfold l.
+    rewrite nth_firstn', nth_skipn' by exact Hb. reflexivity.
+  - rewrite (nth_overflow (map _ _)) by (now rewrite map_length, seq_length).
+    rewrite (nth_overflow bs) by lia. apply N.bits_0.
+Qed.
+
+Lemma btb_length' bs : length (bits_to_bytes bs) = ((length bs + 7) / 8)%nat.
+Proof. now rewrite btb_spec, map_length, seq_length. Qed.
+
+Lemma chunkify_length' bs : length (chunkify bs) = ((length bs + 31) / 32)%nat.
+Proof. now rewrite chunkify_spec, map_length, seq_length. Qed.
+
+(* bit r (< 256) of chunk q of the packed bits is bit 256q + r *)
+Lemma bit_chunks_bit bs q r : r < 256 ->
+  chunk_get_bit (nth q (bit_chunks bs) zero_chunk) r = nth (256 * q + N.to_nat r) bs false.
+Proof.
+  intros Hr. unfold chunk_get_bit, bit_chunks, nat_of.
+  rewrite N.shiftr_div_pow2. change (2 ^ 3) with 8.
+  change 7 with (N.ones 3). rewrite N.land_ones. change (2 ^ 3) with 8.
+  rewrite chunkify_byte by lia.
+  replace (r mod 8) with (N.of_nat (N.to_nat (r mod 8))) by lia.
+  rewrite btb_bit by lia. f_equal. lia.
+Qed.
+
+Lemma map_nth_seq {A B} (f : A -> B) (d : A) : forall l,
+  map (fun k => f (nth k l d)) (seq 0 (length l)) = map f l.
+Proof.
+  induction l as [|x l IH]; [reflexivity|].
+  cbn [length seq map nth]. f_equal. rewrite <- seq_shift, map_map. exact IH.
+Qed.
+
+Section WithZeroTable4.
+Variable zh : nat -> chunk.
+
+(* the bit iterator over the chunks of a bit string *)
+Lemma bits_drain anchor d bs extra :
+  d < 56 -> series zh (N.to_nat d) (map is_chunk (bit_chunks bs)) anchor ->
+  bit_iter_ok d (lenN bs) = true /\
+  bit_iter_drain (nat_of (lenN bs) + extra) anchor (lenN bs) d (bit_iter_init d) =
+  map (fun b => IVal (VBool b)) bs ++ repeat IEnd extra.
+Proof.
+  intros Hd Hs.
+  pose proof (series_length zh _ _ _ Hs) as Hsl. unfold lenN in Hsl.
+  rewrite map_length, N2Nat.id in Hsl. unfold bit_chunks in Hsl.
+  rewrite chunkify_length', btb_length' in Hsl.
+  assert (Hk : lenN bs <= 2 ^ d * 256).
+  { unfold lenN. set (c := 2 ^ d) in *. lia. }
+  assert (H64 : 2 ^ d * 256 < 2 ^ 64).
+  { change 256 with (2 ^ 8). rewrite <- N.pow_add_r. apply N.pow_lt_mono_r; lia. }
+  split; [apply bit_iter_ok_spec; assumption|].
+  unfold nat_of. rewrite bit_iter_drain_spec by lia.
+  rewrite (steps_of_all_ok _ _ (fun i => nth i bs false)).
+  - f_equal. unfold lenN. rewrite Nat2N.id.
+    apply (map_nth_seq (fun b => IVal (VBool b)) false bs).
+  - intros i Hi. apply in_seq in Hi. unfold lenN in Hi. rewrite Nat2N.id in Hi.
+    unfold bit_elem.
+    set (q := (i / 256)%nat).
+    assert (Hq : (q < length (bit_chunks bs))%nat).
+    { unfold bit_chunks. rewrite chunkify_length', btb_length'. unfold q. lia. }
+    destruct (series_bottom zh _ _ anchor q (is_chunk (nth q (bit_chunks bs) zero_chunk)) Hs)
+      as (m & Hm & Hc).
+    { rewrite nth_error_map, (nth_error_nth' _ zero_chunk) by exact Hq. reflexivity. }
+    rewrite N2Nat.id in Hm.
+    replace (N.of_nat i / 256) with (N.of_nat q) by (unfold q; lia).
+    rewrite Hm. cbn [bind]. unfold is_chunk in Hc. subst m. cbn [leaf_chunk bind].
+    rewrite bit_chunks_bit by (apply N.mod_lt; lia). do 3 f_equal. unfold q. lia.
+Qed.
+
+Theorem repr_ro_bitvector k n bs extra :
+  small_params (TBitvector k) = true ->
+  repr zh (TBitvector k) n (VBits bs) -> has_type (VBits bs) (TBitvector k) = true ->
+  ro_iter (TBitvector k) n extra = map (fun b => IVal (VBool b)) bs ++ repeat IEnd extra.
+Proof.
+  intros Hsm Hr Ht.
+  pose proof (small_contents_depth _ Hsm) as Hd. cbv beta iota in Hd.
+  cbn [has_type] in Ht. apply N.eqb_eq in Ht.
+  cbn [repr] in Hr. cbn [ro_iter].
+  set (t := TBitvector k) in *.
+  assert (Hvd : view_depth t = contents_depth t) by (unfold view_depth; cbn [is_list_ty t]; lia).
+  rewrite Hvd. fold (lenN bs) in Ht. rewrite <- Ht.
+  destruct (bits_drain n (contents_depth t) bs extra ltac:(lia) Hr) as [Hok E].
+  rewrite Hok. exact E.
+Qed.
+
+Theorem repr_ro_bitlist k n bs extra :
+  small_params (TBitlist k) = true ->
+  repr zh (TBitlist k) n (VBits bs) -> has_type (VBits bs) (TBitlist k) = true ->
+  ro_iter (TBitlist k) n extra = map (fun b => IVal (VBool b)) bs ++ repeat IEnd extra.
+Proof.
+  intros Hsm Hr Ht.
+  pose proof (small_contents_depth _ Hsm) as Hd. cbv beta iota in Hd.
+  cbn [has_type] in Ht. apply N.leb_le in Ht. fold (lenN bs) in Ht.
+  cbn [small_params] in Hsm. apply N.leb_le in Hsm.
+  cbn [repr] in Hr. destruct Hr as (c & -> & Hr). cbn [ro_iter].
+  set (t := TBitlist k) in *.
+  assert (H64 : lenN bs < 2 ^ 64).
+  { assert (2 ^ 56 < 2 ^ 64) by (apply N.pow_lt_mono_r; lia). lia. }
+  rewrite (list_length_len_leaf k c (lenN bs) Ht H64). cbn [node_left].
+  destruct (bits_drain c (contents_depth t) bs extra ltac:(lia) Hr) as [Hok E].
+  rewrite Hok. exact E.
+Qed.
+
+End WithZeroTable4.
+
+(* ---- packed basic values ---- *)
+
+Lemma pad32_length l : length (pad32 l) = 32%nat.
+Proof.
+  unfold pad32, pad_to, zero_bytes. rewrite firstn_length, app_length, repeat_length. lia.
+Qed.
+
+Lemma chunk_slice B q a m : (a + m <= 32)%nat -> (32 * q + a + m <= length B)%nat ->
+  firstn m (skipn a (nth q (chunkify B) zero_chunk)) = firstn m (skipn (32 * q + a) B).
+Proof.
+  intros Ham HB.
+  assert (Hq : (m = 0)%nat \/ (q < (length B + 31) / 32)%nat) by lia.
+  destruct Hq as [->|Hq]; [reflexivity|].
+  assert (Hc : length (nth q (chunkify B) zero_chunk) = 32%nat).
+  { rewrite chunkify_spec, nth_map_seq by exact Hq. apply pad32_length. }
+  apply (nth_ext _ _ b0 b0).
+  - rewrite !firstn_length, !skipn_length, Hc. lia.
+  - intros j Hj. rewrite firstn_length, skipn_length, Hc in Hj.
+    rewrite !nth_firstn', !nth_skipn' by lia.
+    rewrite chunkify_byte by lia. f_equal. lia.
+Qed.
+
+Lemma flat_map_slice {A} (f : A -> list byte) W d : forall vs i,
+  (forall v, In v vs -> length (f v) = W) -> (i < length vs)%nat ->
+  firstn W (skipn (W * i) (flat_map f vs)) = f (nth i vs d).
+Proof.
+  induction vs as [|v vs IH]; intros i Hall Hi; [cbn in Hi; lia|].
+  pose proof (Hall v (or_introl eq_refl)) as Hv.
+  cbn [flat_map]. destruct i as [|i].
+  - rewrite Nat.mul_0_r. cbn [skipn nth].
+    rewrite firstn_app, Hv, Nat.sub_diag. cbn [firstn]. rewrite app_nil_r.
+    apply firstn_all2. lia.
+  - replace (W * S i)%nat with (W + W * i)%nat by lia. rewrite skipn_add'.
+    rewrite skipn_app, Hv, Nat.sub_diag. cbn [skipn nth].
+    rewrite (skipn_all2 (f v)) by lia. cbn [app].
+    apply IH; [intros v' Hv'; apply Hall; now right|cbn in Hi; lia].
+Qed.
+
+Lemma flat_map_length_const {A} (f : A -> list byte) W : forall vs,
+  (forall v, In v vs -> length (f v) = W) -> length (flat_map f vs) = (W * length vs)%nat.
+Proof.
+  induction vs as [|v vs IH]; intros Hall; [cbn; lia|].
+  cbn [flat_map length]. rewrite app_length, (Hall v (or_introl eq_refl)), IH; [lia|].
+  intros v' Hv'. apply Hall. now right.
+Qed.
+
+Lemma has_type_uint v w : has_type v (TUint w) = true -> exists x, v = VUint x /\ x < 2 ^ (8 * w).
+Proof.
+  destruct v; cbn [has_type]; try discriminate. intros H. apply N.ltb_lt in H. eauto.
+Qed.
+
+Lemma spec_ser_uint_length w v : has_type v (TUint w) = true ->
+  length (spec_ser (TUint w) v) = N.to_nat w.
+Proof.
+  intros H. destruct (has_type_uint v w H) as (x & -> & _). cbn [spec_ser]. apply le_bytes_length.
+Qed.
+
+Section WithZeroTable5.
+Variable zh : nat -> chunk.
+
+Local Ltac eval_per :=
+  match goal with
+  | |- context [per_node (TUint ?w)] =>
+    let v := eval vm_compute in (per_node (TUint w)) in change (per_node (TUint w)) with v
+  end.
+
+Lemma packed_drain w anchor d vs extra :
+  uint_width_ok w = true -> d < 58 ->
+  series zh (N.to_nat d) (map is_chunk (packed_chunks (TUint w) vs)) anchor ->
+  forallb (fun x => has_type x (TUint w)) vs = true ->
+  basic_iter_ok (TUint w) d (lenN vs) = true /\
+  basic_iter_drain (nat_of (lenN vs) + extra) (TUint w) anchor (lenN vs) d
+                   (basic_iter_init (TUint w) d) =
+  map IVal vs ++ repeat IEnd extra.
+Proof.
+  intros Hw Hd Hs Hty. rewrite forallb_forall in Hty.
+  set (e := TUint w) in *.
+  set (B := flat_map (spec_ser e) vs) in *.
+  assert (Hall : forall v, In v vs -> length (spec_ser e v) = N.to_nat w).
+  { intros v Hv. apply spec_ser_uint_length. now apply Hty. }
+  pose proof (flat_map_length_const (spec_ser e) (N.to_nat w) vs Hall) as HB. fold B in HB.
+  pose proof (series_length zh _ _ _ Hs) as Hsl. unfold lenN in Hsl.
+  rewrite map_length, N2Nat.id in Hsl. unfold packed_chunks in Hsl. fold e B in Hsl.
+  rewrite chunkify_length', HB in Hsl.
+  assert (H32 : 2 ^ d * 32 < 2 ^ 64).
+  { change 32 with (2 ^ 5). rewrite <- N.pow_add_r. apply N.pow_lt_mono_r; lia. }
+  pose proof (per_node_le_32 e) as Hp32.
+  destruct (per_node_uint w Hw) as (s & Hps & Hs5). fold e in Hps.
+  assert (Hwp : w * per_node e = 32).
+  { unfold e. clear -Hw. unfold uint_width_ok in Hw. rewrite !orb_true_iff, !N.eqb_eq in Hw.
+    destruct Hw as [[[[->| ->]| ->]| ->]| ->]; reflexivity. }
+  assert (Hp1 : 1 <= per_node e) by (rewrite Hps; pose proof (pow2_pos s); lia).
+  assert (Hk : lenN vs <= 2 ^ d * per_node e).
+  { unfold lenN. set (c := 2 ^ d) in *. set (p := per_node e) in *.
+    set (L := length vs) in *.
+    assert (N.of_nat (N.to_nat w * L) <= 32 * c) by lia.
+    assert (w * N.of_nat L <= w * (c * p)); [|apply (N.mul_le_mono_pos_l _ _ w); lia].
+    replace (w * (c * p)) with (c * (w * p)) by lia. rewrite Hwp. lia. }
+  assert (Hlt : 2 ^ d * per_node e < 2 ^ 64).
+  { assert (2 ^ d * per_node e <= 2 ^ d * 32) by (apply N.mul_le_mono_l; exact Hp32). lia. }
+  split; [apply basic_iter_ok_spec; (lia || assumption)|].
+  unfold nat_of. rewrite basic_iter_drain_spec by lia.
+  rewrite (steps_of_all_ok _ _ (fun i => nth i vs (VUint 0))).
+  - f_equal. unfold lenN. rewrite Nat2N.id. apply (map_nth_seq IVal (VUint 0) vs).
+  - intros i Hi. apply in_seq in Hi. unfold lenN in Hi. rewrite Nat2N.id in Hi.
+    unfold packed_elem. cbv zeta.
+    set (p := per_node e) in *.
+    set (q := N.to_nat (N.of_nat i / p)). set (r := N.of_nat i mod p).
+    assert (Hir : N.of_nat i = p * N.of_nat q + r /\ r < p).
+    { unfold q, r. rewrite N2Nat.id. split; [apply N.div_mod; lia|apply N.mod_lt; lia]. }
+    destruct Hir as [Hir Hrp].
+    (* 32 q + w r = w i *)
+    assert (Hoff : (32 * q + N.to_nat (w * r) = N.to_nat w * i)%nat).
+    { assert (32 * N.of_nat q + w * r = w * N.of_nat i); [|lia].
+      rewrite Hir, <- Hwp. lia. }
+    assert (Hwr : w * r + w <= 32).
+    { rewrite <- Hwp. replace (w * r + w) with (w * (r + 1)) by lia.
+      apply N.mul_le_mono_l. lia. }
+    assert (Hend : (N.to_nat w * i + N.to_nat w <= length B)%nat).
+    { rewrite HB. replace (N.to_nat w * i + N.to_nat w)%nat with (N.to_nat w * (i + 1))%nat by lia.
+      apply Nat.mul_le_mono_l. lia. }
+    assert (Hwpos : 1 <= w) by (destruct w; [discriminate|lia]).
+    assert (Hq : (q < length (packed_chunks e vs))%nat).
+    { unfold packed_chunks. fold B. rewrite chunkify_length'. lia. }
+    destruct (series_bottom zh _ _ anchor q (is_chunk (nth q (packed_chunks e vs) zero_chunk)) Hs)
+      as (m & Hm & Hc).
+    { rewrite nth_error_map, (nth_error_nth' _ zero_chunk) by exact Hq. reflexivity. }
+    rewrite N2Nat.id in Hm. unfold q in Hm. rewrite N2Nat.id in Hm. rewrite Hm. cbn [bind].
+    unfold is_chunk in Hc. subst m. cbn [leaf_chunk bind].
+    unfold packed_chunks. fold B. fold q.
+    (* the slice of the chunk is the encoding of element i *)
+    pose proof (chunk_slice B q (N.to_nat (w * r)) (N.to_nat w) ltac:(lia) ltac:(lia)) as Hsl'.
+    rewrite Hoff in Hsl'.
+    pose proof (flat_map_slice (spec_ser e) (N.to_nat w) (VUint 0) vs i Hall ltac:(lia)) as Hfs.
+    fold B in Hfs. rewrite Hfs in Hsl'. clear Hfs.
+    assert (Hin : In (nth i vs (VUint 0)) vs) by (apply nth_In; lia).
+    destruct (has_type_uint _ w (Hty _ Hin)) as (x & Hx & Hxb). rewrite Hx in *.
+    cbn [spec_ser e] in Hsl'. fold (nat_of w) in Hsl'. unfold e. cbn [packed_val].
+    fold e. fold p. rewrite <- Hwp. fold p.
+    assert (Hdiv : w * p / w = p) by (rewrite N.mul_comm; apply N.div_mul; lia).
+    rewrite Hdiv. rewrite (proj2 (N.leb_gt p r) Hrp).
+    assert (Hval : le_val (le_bytes (nat_of w) x) = x).
+    { rewrite le_val_le_bytes, pow256. unfold nat_of. rewrite N2Nat.id. now apply N.mod_small. }
+    destruct ((w =? 1) || (w =? 2) || (w =? 4) || (w =? 8)) eqn:Hsmall.
+    + unfold nat_of in *. rewrite Hsl', Hval. reflexivity.
+    + assert (Hw32 : w = 32).
+      { unfold uint_width_ok in Hw. rewrite Hsmall in Hw. cbn [orb] in Hw. now apply N.eqb_eq. }
+      rewrite Hwp, (proj2 (N.eqb_eq w 32) Hw32). f_equal. f_equal.
+      assert (Hr0 : r = 0).
+      { subst w. unfold p, e in Hrp. change (per_node (TUint 32)) with 1 in Hrp. lia. }
+      rewrite Hr0, Hw32 in Hsl'. change (N.to_nat (32 * 0)) with 0%nat in Hsl'.
+      cbn [skipn] in Hsl'. rewrite firstn_all2 in Hsl'.
+      * rewrite Hsl', <- Hw32. exact Hval.
+      * rewrite chunkify_spec, nth_map_seq, pad32_length; [unfold nat_of; lia|].
+        fold B in Hq. unfold packed_chunks in Hq. now rewrite chunkify_length' in Hq.
+Qed.
+
+End WithZeroTable5.
+
+Section WithZeroTable6.
+Variable zh : nat -> chunk.
+
+Theorem repr_ro_packed_vector w k n vs extra :
+  wf_ty (TVector (TUint w) k) = true -> small_params (TVector (TUint w) k) = true ->
+  repr zh (TVector (TUint w) k) n (VSeq vs) -> has_type (VSeq vs) (TVector (TUint w) k) = true ->
+  ro_iter (TVector (TUint w) k) n extra = map IVal vs ++ repeat IEnd extra.
+Proof.
+  intros Hwf Hsm Hr Ht.
+  pose proof (small_contents_depth _ Hsm) as Hd. cbv beta iota in Hd.
+  cbn [wf_ty] in Hwf. apply andb_true_iff in Hwf. destruct Hwf as [_ Hw].
+  cbn [has_type] in Ht. apply andb_true_iff in Ht. destruct Ht as [Hlen Hty]. apply N.eqb_eq in Hlen.
+  cbn [repr is_basic_elem] in Hr. cbn [ro_iter is_basic_elem].
+  set (t := TVector (TUint w) k) in *.
+  assert (Hvd : view_depth t = contents_depth t) by (unfold view_depth; cbn [is_list_ty t]; lia).
+  rewrite Hvd. fold (lenN vs) in Hlen. rewrite <- Hlen.
+  destruct (packed_drain zh w n (contents_depth t) vs extra Hw ltac:(lia) Hr Hty) as [Hok E].
+  rewrite Hok. exact E.
+Qed.
+
+Theorem repr_ro_packed_list w k n vs extra :
+  wf_ty (TList (TUint w) k) = true -> small_params (TList (TUint w) k) = true ->
+  repr zh (TList (TUint w) k) n (VSeq vs) -> has_type (VSeq vs) (TList (TUint w) k) = true ->
+  ro_iter (TList (TUint w) k) n extra = map IVal vs ++ repeat IEnd extra.
+Proof.
+  intros Hwf Hsm Hr Ht.
+  pose proof (small_contents_depth _ Hsm) as Hd. cbv beta iota in Hd.
+  cbn [wf_ty] in Hwf. rename Hwf into Hw.
+  cbn [has_type] in Ht. apply andb_true_iff in Ht. destruct Ht as [Hlen Hty]. apply N.leb_le in Hlen.
+  fold (lenN vs) in Hlen.
+  cbn [small_params] in Hsm. apply andb_true_iff in Hsm. destruct Hsm as [H56 _]. apply N.leb_le in H56.
+  cbn [repr is_basic_elem] in Hr. destruct Hr as (c & -> & Hr). cbn [ro_iter is_basic_elem].
+  set (t := TList (TUint w) k) in *.
+  assert (H64 : lenN vs < 2 ^ 64).
+  { assert (2 ^ 56 < 2 ^ 64) by (apply N.pow_lt_mono_r; lia). lia. }
+  rewrite (list_length_len_leaf k c (lenN vs) Hlen H64). cbn [node_left]. cbv zeta.
+  destruct (packed_drain zh w c (contents_depth t) vs extra Hw ltac:(lia) Hr Hty) as [Hok E].
+  rewrite Hok. exact E.
+Qed.
+
+End WithZeroTable6.
+
+(* on a representing tree the getters and the index iterator yield the same components *)
+Corollary repr_get_all_eq t n extra steps len :
+  wf_ty t = true -> view_depth t < 64 ->
+  ro_iter t n extra = steps ++ repeat IEnd extra -> ~ In IErr steps ->
+  Forall (fun s => is_comp s = true) steps ->
+  series_len t n = OK len ->
+  get_all t n = steps /\ ix_iter t n extra = steps ++ repeat IEnd extra /\
+  length steps = N.to_nat len.
+Proof.
+  intros Hwf Hvd Hro Hclean Hcomp Hlen.
+  assert (Hc : ~ In IErr (ro_iter t n extra)).
+  { rewrite Hro. intros Hin. apply in_app_or in Hin. destruct Hin as [Hin|Hin]; [now apply Hclean|].
+    apply repeat_spec in Hin. discriminate. }
+  destruct (ro_eq_get t n extra Hwf Hvd Hc) as (len' & Hlen' & E & L & F).
+  rewrite Hlen in Hlen'. injection Hlen' as <-.
+  assert (Hga : get_all t n = steps).
+  { rewrite Hro in E.
+    assert (Hl : length steps = length (get_all t n)).
+    { apply (f_equal (@length istep)) in E. rewrite !app_length in E. lia. }
+    apply (f_equal (firstn (length steps))) in E.
+    rewrite firstn_app, Nat.sub_diag, firstn_all in E. cbn [firstn] in E. rewrite app_nil_r in E.
+    rewrite Hl, firstn_app, Nat.sub_diag, firstn_all in E. cbn [firstn] in E.
+    rewrite app_nil_r in E. now symmetry. }
+  split; [exact Hga|]. split; [|now rewrite <- Hga].
+  destruct (ix_eq_get t n extra len Hlen) as [Eix _]. now rewrite Eix, Hga.
+Qed.
+
+
+(* the hypotheses of the representation theorems are satisfiable *)
+Example ex_repr_ro :
+  wf_ty ex_ty = true /\ small_params ex_ty = true /\ has_type ex_val ex_ty = true /\
+  from_val xzh ex_ty ex_val = OK ex_node.
+Proof. repeat split; vm_compute; reflexivity. Qed.
+
+Example ex_repr : repr xzh ex_ty ex_node ex_val.
+Proof.
+  unfold ex_ty, ex_val. cbn [repr map is_basic_elem].
+  eexists. split; [vm_compute; reflexivity|].
+  vm_compute. repeat split. left. reflexivity.
+Qed.
